@@ -1,0 +1,22 @@
+//! Verification hooks. Compiled only with `--cfg btdht_verif`; never part of a normal build.
+//!
+//! Re-exports of crate-private items that the verification harness drives directly, and the
+//! virtual clock used in place of `std::time::Instant::now()`.
+
+pub use crate::bucket::{Bucket, MAX_BUCKET_SIZE};
+pub use crate::node::{Node, NodeHandle, NodeStatus};
+pub use crate::storage::AnnounceStorage;
+pub use crate::table::{leading_bit_count, RoutingTable, MAX_BUCKETS};
+pub use crate::token::{Token, TokenStore};
+pub use crate::transaction::{AIDGenerator, ActionID, MIDGenerator, TransactionID};
+
+use std::time::Instant as StdInstant;
+
+/// Inside a tokio runtime the crate's clock follows tokio's (pausable) clock.
+pub(crate) fn virtual_now() -> Option<StdInstant> {
+    if tokio::runtime::Handle::try_current().is_ok() {
+        Some(tokio::time::Instant::now().into_std())
+    } else {
+        None
+    }
+}
